@@ -48,7 +48,14 @@ func (s sem) inRange() bool {
 	return s.mtype <= 4 && s.temporal <= 2 && idsOK
 }
 
-func writeSem(recs []sem, opts pkg.WriterOptions) ([]byte, error) {
+func writeSem(recs []sem, opts pkg.WriterOptions) (out []byte, err error) {
+	defer func() {
+		// a panic of the record API or the writer on these (valid) calls is reported with the
+		// records as the failing input instead of ending the harness
+		if e := recover(); e != nil {
+			out, err = nil, fmt.Errorf("PANIC %v at %s", e, panicSite(debug.Stack()))
+		}
+	}()
 	buf := &pkg.MemChunkWriter{}
 	w, err := otelstef.NewMetricsWriter(buf, opts)
 	if err != nil {
@@ -239,7 +246,11 @@ func hostilePhase(thorough bool) {
 		opts, oname := optsFor(r)
 		stream, err := writeSem(recs, opts)
 		if err != nil {
-			propFail("C03", "hostile-writer-error", fmt.Sprintf("case=%s cannot write the base stream: %v", name, err))
+			var rs []string
+			for _, s := range recs {
+				rs = append(rs, "{"+s.String()+"}")
+			}
+			propFail("C03", "hostile-writer-error", fmt.Sprintf("case=%s cannot write the base stream: %v; records written through the record API (options %s): %s", name, err, oname, strings.Join(rs, " ")))
 			continue
 		}
 		var ds []string
